@@ -92,6 +92,20 @@ def corpus_cases():
     c = h.case()
     c["cls"] = "corpus"
     out.append(c)
+    # F1502 at the switch: the application-id pool (one id here) is exhausted, so the PDRs a modification creates for A and
+    # A2 fall back to application id 0 - the key of their unfiltered PDRs; the per-PDR MODIFY batch is rejected (NOT_FOUND on
+    # the new sessions entry) but its terminations update is applied and writes ctr_idx 0 (the created PDR has no counter)
+    # over the entry of PDR 1 (two sessions: at most one of the two PDRs can own cell 0 itself)
+    h = G.Hist(G.default_cfg(None, 5, 1), "K-mod-created-pdr-rewrites-entry")
+    h.establish("A", nq=1, gnb=0, sdf=None)
+    h.establish("A2", nq=1, gnb=1, sdf=None)
+    h.establish("B", nq=1, gnb=2, sdf=0)
+    h.modify("A", "add_pair")
+    h.modify("A2", "add_pair")
+    h.tail()
+    c = h.case()
+    c["cls"] = "corpus"
+    out.append(c)
     # F24, application-id half, shared filter: the rejected deletion of A has already dropped A's references to the
     # filter's id; the (accepted) deletion of B, now the "last" user, releases the id that A's entries still name
     h = G.Hist(None, "K-shared-filter-failed-delete")
@@ -302,7 +316,7 @@ def run(tier, seed, replay=None):
     ck.rule = ("13 scenarios (the 9 of DESIGN.md + Update PDR, shared-then-deleted, two tiny-pool migration probes) and one corpus scenario per recorded finding, each run fault-free, then once per "
                "(establishment/modification/deletion step, k <= W Writes of that step, 4 answer kinds: gRPC UNAVAILABLE, p4.Error RESOURCE_EXHAUSTED, "
                "p4.Error ALREADY_EXISTS, gRPC UNKNOWN without details) + a retried establishment after every failing position, each followed by two further "
-               "sessions; then random histories with 1-2 faults per step (none on the deletion of a session holding an application filter: F24 starts there, covered by sweep and corpus); non-trivial = at least one Write of the case failed; distinct = distinct "
+               "sessions; then random histories with 1-2 faults per step (none on the deletion of a session holding an application filter: F24 starts there, covered by sweep and corpus; PDRs of a generated session have distinct match keys); non-trivial = at least one Write of the case failed; distinct = distinct "
                "(scenario, multiset of (operation, Write site, answer))")
     ck.prove(TARGETS)
     rng = rng_for(seed, "C15")
